@@ -30,7 +30,7 @@ func TestC03(t *testing.T) {
 	r := mon.NewRunner(t, "C03")
 	rnd := r.Rand()
 	var cases []mon.CaseSpec
-	nseq, nconc := r.Pick(1500, 15000), r.Pick(500, 5000)
+	nseq, nconc := r.Pick(1500, 100000), r.Pick(500, 30000)
 	for i := 0; i < nseq; i++ {
 		cases = append(cases, mon.CaseSpec{Name: "seq", Spec: c03Spec{Mode: "seq", NCtx: 1 + rnd.Intn(3), NPipes: 1 + rnd.Intn(3), NOps: 10 + rnd.Intn(31)}})
 	}
